@@ -271,6 +271,7 @@ class Explorer:
         self.npaths = multiprocessing.Value("l", 0)
         self.nforks = multiprocessing.Value("l", 0)
         self.max_steps = 2_000_000
+        self.query_timeout_ms = int(os.environ.get("MIRSYM_QUERY_TIMEOUT_MS", "30000"))
         self._out = None
         self._reset_path([])
         self.solver = None
@@ -478,6 +479,7 @@ class Explorer:
         """Run `path_fn(self)` over all paths.  Returns list of result records."""
         self.solver = z3.Solver()
         self.solver.set("random_seed", self.seed)
+        self.solver.set("timeout", self.query_timeout_ms)
         # phase 1 (this process): breadth-first until there is enough work to share
         pending = self._dfs(path_fn, [[]], limit=(16 * self.jobs if self.jobs > 1 else None))
         if self._out: self._out.flush()
@@ -493,6 +495,7 @@ class Explorer:
                         self._out = None
                         self.solver = z3.Solver()
                         self.solver.set("random_seed", self.seed)
+                        self.solver.set("timeout", self.query_timeout_ms)
                         while True:
                             with nxt.get_lock():
                                 i = nxt.value
